@@ -5,6 +5,7 @@ import ast
 import itertools
 
 from ..errors import AnalysisError
+from ..astutil import clone
 from ..model import src, walk_local, docstring_free
 from .. import names as N
 from .. import facts as F
@@ -86,23 +87,80 @@ def csv_reader_calls(ctx):
     return out
 
 
+_PREDEFINED = {
+    'csv.excel': {'delimiter': ',', 'quotechar': '"', 'doublequote': True, 'skipinitialspace': False, 'lineterminator': '\r\n',
+                  'quoting': 'csv.QUOTE_MINIMAL'},
+    'csv.excel_tab': {'delimiter': '\t', 'quotechar': '"', 'doublequote': True, 'skipinitialspace': False, 'lineterminator': '\r\n',
+                      'quoting': 'csv.QUOTE_MINIMAL'},
+    'csv.unix_dialect': {'delimiter': ',', 'quotechar': '"', 'doublequote': True, 'skipinitialspace': False, 'lineterminator': '\n',
+                         'quoting': 'csv.QUOTE_ALL'},
+    'csv.Dialect': {},
+}
+_BY_NAME = {'excel': 'csv.excel', 'excel-tab': 'csv.excel_tab', 'unix': 'csv.unix_dialect'}
+
+
+def _option_value(ctx, m, v):
+    r = ctx.prog.resolve_expr(m, v, None) if isinstance(v, (ast.Name, ast.Attribute)) else None
+    if r and r[0] == 'external':
+        return r[1]
+    if r and r[0] == 'assign':
+        return _option_value(ctx, r[2], r[1])
+    try:
+        return ast.literal_eval(v)
+    except Exception:
+        return f'<{src(v)}>'
+
+
+def dialect_fields(ctx, m, node, depth=0):
+    """The formatting parameters a dialect argument stands for: a predefined dialect (by object or registered name), or a
+    class of the repository deriving from one (its class-level assignments, most derived first).  None: not followed."""
+    if depth > 6:
+        return None
+    if isinstance(node, ast.Constant) and isinstance(node.value, str):
+        return dict(_PREDEFINED[_BY_NAME[node.value]]) if node.value in _BY_NAME else None
+    if isinstance(node, ast.Call) and not node.args and not node.keywords:      # an instance of the dialect class
+        node = node.func
+    if not isinstance(node, (ast.Name, ast.Attribute)):
+        return None
+    r = ctx.prog.resolve_expr(m, node, None)
+    if r is None:
+        return None
+    if r[0] == 'external':
+        return dict(_PREDEFINED[r[1]]) if r[1] in _PREDEFINED else None
+    if r[0] == 'assign':
+        return dialect_fields(ctx, r[2], r[1], depth + 1)
+    if r[0] == 'class':
+        ci = r[1]
+        if ci.methods or len(ci.node.bases) != 1:
+            return None
+        out = dialect_fields(ctx, ci.module, ci.node.bases[0], depth + 1)
+        if out is None:
+            return None
+        for k, v in ci.attrs.items():
+            if k.startswith('__') or k == '_name':
+                continue
+            out[k] = _option_value(ctx, ci.module, v)
+        return out
+    return None
+
+
 def reader_dialect(ctx, f, call):
+    """Effective formatting parameters of a csv.reader call: the dialect's, overridden by the keyword arguments."""
     kw = {}
+    dia = call.args[1] if len(call.args) > 1 else None
     for k in call.keywords:
         if k.arg is None:
             return None
-        r = ctx.prog.resolve_expr(f.module, k.value, None) if isinstance(k.value, (ast.Name, ast.Attribute)) else None
-        if r and r[0] == 'external':
-            kw[k.arg] = r[1]
-        else:
-            try:
-                kw[k.arg] = ast.literal_eval(k.value)
-            except Exception:
-                kw[k.arg] = f'<{src(k.value)}>'
-    if len(call.args) > 1:
-        a = call.args[1]
-        r = ctx.prog.resolve_expr(f.module, a, None) if isinstance(a, (ast.Name, ast.Attribute)) else None
-        kw['dialect'] = r[1] if r and r[0] == 'external' else f'<{src(a)}>'
+        if k.arg == 'dialect':
+            dia = k.value
+            continue
+        kw[k.arg] = _option_value(ctx, f.module, k.value)
+    if dia is not None:
+        base = dialect_fields(ctx, f.module, dia)
+        if base is None:
+            raise AnalysisError(f'{f.module.relpath}:{call.lineno}: the dialect `{src(dia)}` given to csv.reader is not followed')
+        kw = dict(base, **kw)
+        kw['<dialect>'] = src(dia)
     return kw
 
 
@@ -120,18 +178,14 @@ def r1_reader(ctx):
         if kw is None:
             raise AnalysisError(f'{at}: csv.reader called with **kwargs')
         who = entry.name
-        d = kw.get('dialect')
-        if d is not None:
-            ctx.violation('R1', at, entry.qualname, 'reader-interprets-quotes',
-                          f'{who}: csv.reader is given the dialect {d}; every predefined csv dialect interprets the double quote '
-                          f'(a cell starting with a quote swallows the following tabs and line ends, `"x"` loses its quotes)')
-            continue
+        dia = kw.pop('<dialect>', None)
         ctx.check(kw.get('delimiter') == '\t', 'R1', at, entry.qualname, 'reader-delimiter', f'{who}: cells are separated by TAB only',
                   f'{who}: delimiter is {kw.get("delimiter")!r}')
         literal = kw.get('quoting') == 'csv.QUOTE_NONE' or ('quotechar' in kw and kw['quotechar'] is None)
         ctx.check(literal, 'R1', at, entry.qualname, 'reader-interprets-quotes',
                   f'{who}: quoting is disabled: a double quote is ordinary cell text',
-                  f'{who}: csv.reader is used with its default dialect (quotechar \'"\', QUOTE_MINIMAL): a cell that starts with a double '
+                  f'{who}: csv.reader is used with ' + (f'the dialect {dia}' if dia else 'its default dialect')
+                  + f' (quotechar \'"\', {kw.get("quoting", "QUOTE_MINIMAL")}): a cell that starts with a double '
                   'quote swallows the following tabs and line ends up to the next quote, and `"la"` loses its quotes')
         extra = set(kw) - {'delimiter', 'quoting', 'quotechar'}
         bad = {k: kw[k] for k in extra if not (k == 'escapechar' and kw[k] is None) and not (k == 'skipinitialspace' and kw[k] is False)
@@ -200,36 +254,58 @@ def _is_next_append(call):
         and src(call.func.value) == 'self._next_stage_parents'
 
 
-def _append_weight(call):
-    if call.func.attr == 'append':
-        return 1
-    a = call.args[0] if call.args else None
-    if isinstance(a, (ast.List, ast.Tuple)):
+def _seq_len(a):
+    """Number of elements of a list expression whose length is fixed by its shape; None: not fixed."""
+    if isinstance(a, (ast.List, ast.Tuple)) and not any(isinstance(e, ast.Starred) for e in a.elts):
         return len(a.elts)
+    if isinstance(a, ast.BinOp) and isinstance(a.op, ast.Mult):
+        for x, k in ((a.left, a.right), (a.right, a.left)):
+            n = _seq_len(x)
+            if n is not None and isinstance(k, ast.Constant) and isinstance(k.value, int) and not isinstance(k.value, bool):
+                return n * max(k.value, 0)
+    if isinstance(a, ast.BinOp) and isinstance(a.op, ast.Add):
+        l, r = _seq_len(a.left), _seq_len(a.right)
+        return l + r if l is not None and r is not None else None
+    if isinstance(a, ast.Call) and isinstance(a.func, ast.Name) and a.func.id in ('list', 'tuple') and len(a.args) == 1 and not a.keywords:
+        return _seq_len(a.args[0])
     return None
 
 
+def _append_weight(call):
+    if call.func.attr == 'append':
+        return 1
+    return _seq_len(call.args[0]) if call.args else None
+
+
 def path_counts(ctx, f, body, helper_counts):
-    """[(SymPath, add_node count, next-append count)] for the statement list `body`."""
+    """[(SymPath, add_node count, next-append count)] for the statement list `body`.  Nodes are counted on the statements of
+    the path; continuations on the statement-level calls with the values of the locals substituted (`extend([node] * n)`)."""
     out = []
-    for sp in symex.sym_paths(body, limit=20000):
+    for sp in symex.sym_paths(body, limit=20000, fi=f):
         nadd = napp = 0
+        raw_appends = 0
         for s in sp.path.steps:
             for e in step_exprs(s):
                 for c in calls_in(e):
                     if _is_add_node(c):
                         nadd += 1
                     elif _is_next_append(c):
-                        w = _append_weight(c)
-                        if w is None:
-                            raise AnalysisError(f'{f.module.relpath}:{c.lineno}: extend() with a non-literal argument')
-                        napp += w
+                        raw_appends += 1
                     elif isinstance(c.func, ast.Attribute) and F.is_name(c.func.value, 'self') and c.func.attr in helper_counts:
                         a, b = helper_counts[c.func.attr]
                         if a is None:
                             raise AnalysisError(f'{f.module.relpath}:{c.lineno}: helper {c.func.attr} has no constant count')
                         nadd += a
                         napp += b if b is not None else 0
+        top = [e for e in sp.events if e.kind == 'expr' and isinstance(e.expr, ast.Call) and _is_next_append(e.expr)]
+        if len(top) != raw_appends:
+            raise AnalysisError(f'{f.loc}: a continuation is pushed by a call that is not a statement of its own')
+        for e in top:
+            w = _append_weight(e.expr)
+            if w is None:
+                raise AnalysisError(f'{f.module.relpath}:{e.node.lineno}: extend() with an argument whose length is not fixed '
+                                    f'by its shape: `{src(e.expr.args[0])[:80] if e.expr.args else ""}`')
+            napp += w
         out.append((sp, nadd, napp))
     return out
 
@@ -246,13 +322,15 @@ def r3_r5_counts(ctx):
               'a header cell creates exactly one node and one continuation on every non-raising path',
               f'header cell: (nodes, continuations) per path = {sorted({(a, b) for _, a, b in live})}')
     # helper: spine operator -> 1 node; continuation count by the table
-    sc = path_counts(ctx, sop, docstring_free(sop.body), {})
-    live = [(sp, a, b) for sp, a, b in sc if sp.end != 'raise']
+    live = []
+    for sp in symex.sym_paths(docstring_free(sop.body), limit=20000, fi=sop):
+        if sp.end != 'raise':
+            live.append((sp, sum(1 for st in sp.path.steps for e in step_exprs(st) for c in calls_in(e) if _is_add_node(c)), None))
     oks = bool(live) and all(a == 1 for _, a, _ in live)
     ctx.check(oks, 'R3', sop.loc, sop.qualname, 'spine-operator-one-node',
               'a spine-operator cell creates exactly one node on every non-raising path',
               f'spine-operator cell: nodes per path = {sorted({a for _, a, _ in live})}')
-    r5_arity(ctx, sop, sc)
+    r5_arity(ctx, sop)
     # the column loop of run
     loops = [n for n in walk_local(run_.node) if isinstance(n, ast.For) and 'enumerate(row)' in src(n.iter)]
     ctx.expect_count('R3', 'column loop in Importer.run', len(loops), 1)
@@ -309,7 +387,10 @@ def r3_r5_counts(ctx):
                   'only rows without any cell are skipped', f'rows are skipped under `{src(empty[0].test)}`')
 
 
-def r5_arity(ctx, sop, sc):
+def r5_arity(ctx, sop):
+    """For every spine operator the function is specialised (the cell text replaced by the operator, look-ups in constant
+    tables resolved) and the continuations pushed on each remaining path are counted: if-chains, tables of effects and
+    `extend([node] * n)` are the same to this rule."""
     col_p, content_p, row_p = sop.params[1:4]
     eq = lambda v: G._cmp_atom(ast.Name(id=content_p), ast.Eq(), ast.Constant(value=v))[1]
     A_first = G._cmp_atom(ast.Name(id=col_p), ast.Eq(), ast.Constant(value=0))[1]
@@ -320,19 +401,35 @@ def r5_arity(ctx, sop, sc):
     ops = ctx.ce.module_const(N.TOKENS, 'SPINE_OPERATIONS')
     known_eq = {eq(v): v for v in list(ops) + ['*+', '*^', '*v', '*-', '*x']}
     free_ok = {A_first, A_prev_join, A_same_hdr, A_surplus}
-    forms = []
     pos = f'0 < {col_p}'        # a column index is never negative: `col > 0` is `not (col == 0)`
-    for sp, a, b in sc:
-        f = G.map_atoms(sp.condition(), lambda a_: ('not', ('atom', A_first)) if a_ == pos else None)
-        forms.append((sp, f, b))
-    all_atoms = []
-    for _, f, _ in forms:
-        for x in G.atoms_of(f):
-            if x not in all_atoms:
-                all_atoms.append(x)
-    # atoms about the last spine operator of the node do not influence the count (checked by enumeration)
-    unknown = [x for x in all_atoms if x not in known_eq and x not in free_ok]
+
+    def forms_for(v):
+        spc = F._Specialise(ctx, sop, content_p, ast.Constant(value=v))
+        body = [ast.fix_missing_locations(spc.visit(clone(s_))) for s_ in docstring_free(sop.body)]
+        out = []
+        for sp, a, b in path_counts(ctx, sop, body, {}):
+            f = G.map_atoms(sp.condition(), lambda a_: ('not', ('atom', A_first)) if a_ == pos else decided(a_))
+            out.append((sp, f, b))
+        return out
+
+    def decided(atom):
+        try:
+            node = ast.parse(atom, mode='eval').body
+        except SyntaxError:
+            return None
+        ok, val = ctx.ce.try_eval(node, sop.module, sop.cls, {})
+        return ('const', bool(val)) if ok else None
     for v in sorted(set(known_eq.values())):
+        forms = forms_for(v)
+        all_atoms = []
+        for _, f, _ in forms:
+            for x in G.atoms_of(f):
+                if x not in all_atoms:
+                    all_atoms.append(x)
+        if len(all_atoms) > 12:
+            raise AnalysisError(f'{sop.loc}: too many conditions on the paths of a spine operator cell')
+        # atoms about the last spine operator of the node do not influence the count (checked by enumeration)
+        unknown = [x for x in all_atoms if x not in known_eq and x not in free_ok]
         at = sop.loc
         others = [x for x in all_atoms if x not in known_eq]
         if v == '*v':
